@@ -344,6 +344,33 @@ def run_driver(binary, test_run, env=None, timeout=1200, args=None, cwd=None):
     return p.returncode, p.stdout.decode("utf-8", "replace")
 
 
+def pebble_background_panic(out):
+    """Did the driver process die because one of PEBBLE'S OWN background goroutines (a flush, a compaction,
+    a cleaner) panicked?  That is behaviour of the code under test (a panic inside an API call on the
+    driver's goroutine is recovered by the driver and logged as a 'fail' event instead).  Returns None, or
+    a short description: only when the panicking goroutine has no frame of the harness and was created by
+    pebble itself."""
+    i = out.find("\npanic: ")
+    if i < 0:
+        return None
+    seg = out[i + 1:]
+    j = seg.find("\ncreated by ")
+    if j < 0:
+        return None
+    k = seg.find("\n", j + 1)
+    stack = seg[:k if k > 0 else len(seg)]
+    created = seg[j + 1:k if k > 0 else len(seg)]
+    if "internal/verif/" in stack or "zz_verif" in stack:
+        return None
+    if "github.com/cockroachdb/pebble" not in created or "internal/verif" in created or "testing." in created:
+        return None
+    frames = [l.strip() for l in stack.splitlines() if l.startswith("github.com/cockroachdb/pebble")]
+    if not frames:
+        return None
+    msg = stack.splitlines()[0][:300]
+    return "%s | in %s | %s" % (msg, " <- ".join(f.rsplit("(", 1)[0].replace("github.com/cockroachdb/pebble", "pebble") for f in frames[:4]), created.strip()[:160])
+
+
 # --------------------------------------------------------------------------
 # Known findings
 def known_findings(prop):
